@@ -403,10 +403,22 @@ func (g *Syn) scaleUp(p *ir.Node) {
 	id := func(s string) *ir.Node { return ir.N(ir.Ident, s) }
 	switch r.Intn(5, "scalekind") {
 	case 0: // deep statement nesting
-		depth := 17 + r.Intn(24, "nestdepth")
+		// mostly 17..40 mixed levels; sometimes beyond any plausible fixed capacity:
+		// 130..200 nested functions (two context entries each) or 256..300 nested blocks
+		depth, only := 17+r.Intn(24, "nestdepth"), -1
+		switch r.Intn(4, "nestmode") {
+		case 2:
+			depth, only = 130+r.Intn(71, "fndepth"), 3+r.Intn(2, "fnkind")
+		case 3:
+			depth, only = 256+r.Intn(45, "blkdepth"), 0
+		}
 		var cur *ir.Node = ir.N(ir.Block, "", ir.N(ir.ExprStmt, "", ir.N(ir.Call, "", id("leaf"), id("a"))))
 		for i := 0; i < depth; i++ {
-			switch r.Intn(5, "nestkind") {
+			kind := only
+			if kind < 0 {
+				kind = r.Intn(5, "nestkind")
+			}
+			switch kind {
 			case 0:
 				cur = ir.N(ir.Block, "", cur, ir.N(ir.ExprStmt, "", id("n"+strconv.Itoa(i))))
 			case 1:
